@@ -204,7 +204,9 @@ def _run_component(component, cfg):
     subcommand = cfg.pop("subcommand")
     if inspect.isclass(component) and subcommand:
         subcommand_cfg = cfg.pop(subcommand, {})
-        subcommand_cfg.pop("config", None)
+        method = getattr(component, subcommand)
+        if isinstance(method, property) or not has_parameter(method, "config"):
+            subcommand_cfg.pop("config", None)
         component_obj = component(**cfg)
         if isinstance(getattr(component, subcommand), property):
             return getattr(component_obj, subcommand)
